@@ -213,7 +213,7 @@ def do_check(pid, tier, seed, workers):
     n = len(units)
     if n == 0:
         raise HarnessError("no units")
-    nb = max(1, min(n, workers * 6))
+    nb = n if n <= 4000 else workers * 64      # one task per unit (dynamic load balancing); coarser batches only for very many units
     rot = seed % n
     order = list(range(rot, n)) + list(range(0, rot))
     batches = [[] for _ in range(nb)]
